@@ -70,7 +70,10 @@ def cmp_ir(a, b, doc=True, typ=True, defaults=True, returns=True, ir_doc=False):
         return [{"where": "names", "field": "names", "how": how, "exp": ka, "got": kb, "n": len(ka), "index": -1,
                  "tkind": "-", "dkind": "-"}]
     for i, k in enumerate(ka):
-        out += cmp_param("param", i, len(ka), a["params"][k], b["params"][k], doc, typ, defaults)
+        ds = cmp_param("param", i, len(ka), a["params"][k], b["params"][k], doc, typ, defaults)
+        for d in ds:
+            d["name"] = k
+        out += ds
     if returns:
         ra = (a.get("returns") or {}).get("return_type")
         rb = (b.get("returns") or {}).get("return_type")
